@@ -1,34 +1,11 @@
 // vcheck-c14 links only the C14 check into the driver (development / stand-alone runs):
 //
 //	VCHECK_CMD=./cmd/vcheck-c14 ./check C14 quick
-//
-// Development aid: `vcheck-c14 profile <cpu.prof> <tier> <seed> <batch> <nbatches> <outdir>`
-// runs one child under the CPU profiler.
 package main
 
 import (
-	"os"
-	"runtime/pprof"
-	"strconv"
-
 	"verif/internal/core"
 	_ "verif/internal/props/c14"
 )
 
-func main() {
-	if len(os.Args) == 8 && os.Args[1] == "profile" {
-		f, err := os.Create(os.Args[2])
-		if err != nil {
-			panic(err)
-		}
-		seed, _ := strconv.ParseUint(os.Args[4], 10, 64)
-		batch, _ := strconv.Atoi(os.Args[5])
-		nb, _ := strconv.Atoi(os.Args[6])
-		pprof.StartCPUProfile(f)
-		code := core.RunChild("C14", os.Args[3], seed, batch, nb, "", os.Args[7])
-		pprof.StopCPUProfile()
-		f.Close()
-		os.Exit(code)
-	}
-	core.Main()
-}
+func main() { core.Main() }
